@@ -7,7 +7,7 @@ import propbase
 
 ID = "C08"
 MODULE = "HttpcoreModel.Props.C08"
-THEOREMS = [f"Httpcore.C08.{n}" for n in ("pool_mutations_locked", "establishment_single", "reader_rechecks_under_lock", "limit_under_threads", "exclusive_use_all_interleavings",
+THEOREMS = [f"Httpcore.C08.{n}" for n in ("pool_mutations_locked", "establishment_single", "reader_rechecks_under_lock", "writer_takes_and_writes_under_lock", "limit_under_threads", "exclusive_use_all_interleavings",
                                            "close_marks_closed_first", "retire_only_unassigned", "assignment_reserves", "source_protects_assigned",
                                            "pass_assigns_and_evicts_same_connection_107", "pass_keeps_assigned_connection",
                                            "pass_never_retires_held_connection", "assignOne_K", "cleanup_K")]
